@@ -29,6 +29,15 @@ turns it into the bound the property asks for, mirroring `Thm/C08Enc.lean` (`ELo
   caller may push any number of empty chunks.
 * `DReplLoop` / **`repl_caller_loop_bound`**: the same bound for the caller loop over the
   with-replacement methods (`Model.replLoop`; inner calls admissible as `ReplAdmissible` states).
+* **Termination, not only a bound on completed loops.**  Every derivation of `DLoop` / `DReplLoop` ends in
+  the `final` constructor, so the bounds above say nothing about a loop that never gets there.
+  `DLoopPre` / `DReplLoopPre` are the same relations with an extra constructor `start` that ends a
+  derivation anywhere: "the caller has made `n` calls *so far*" (prefix-closed:
+  `DLoopPre.prefix_closed`; complete runs are prefixes: `DLoop.toPre`).  `prefix_calls_le_events`,
+  **`caller_loop_prefix_bound`**, **`repl_caller_loop_prefix_bound`**: the same bounds for every prefix;
+  **`caller_loop_terminates`** / `repl_caller_loop_terminates`: there is no prefix with more than
+  `bytes + chunks + 6` calls, hence the loop cannot go on for ever.  The theorems about complete loops
+  are corollaries.
 -/
 namespace EncodingRs.Thm.C08Loop
 open EncodingRs EncodingRs.Model EncodingRs.Lemmas.Core EncodingRs.Lemmas.FamLaws
@@ -80,11 +89,82 @@ theorem evs_pos (F : Fam) (k : Sink) (hb : NeedsBounded F) (s : F.σ) (src : Lis
     simp only [List.length_append, List.length_map]
     omega
 
-/-- **the caller loop terminates within a number of calls bounded by what the stream says**:
-calls ≤ (characters + errors of the chunk-free reference semantics) + chunks + 1 -/
-theorem calls_le_events (F : Fam) (L : Laws F) (hb : NeedsBounded F) (s : F.σ) (stream : List Nat) (n c : Nat)
-    (h : DLoop F s stream n c) : ∀ pos, n ≤ (ref F s stream pos).length + c + 1 := by
+/-- **Every prefix of a run of the caller loop** over the raw API: `DLoopPre F s stream n c` — started
+in state `s` with `stream` still to be pushed, the caller has made `n` calls *so far*, `c` of them
+non-`last` calls that returned `InputEmpty`.  The step constructors are those of `DLoop`; `start` ends
+a derivation anywhere, so no constructor requires that the run ever reaches the call that ends the
+stream: a loop that went on for ever would have a derivation for every `n`
+(`DLoopPre.prefix_closed`: the relation is closed under taking prefixes).  `final` (the call that ends
+the stream) is kept so that complete runs are prefixes too (`DLoop.toPre`). -/
+inductive DLoopPre (F : Fam) : F.σ → List Nat → Nat → Nat → Prop
+  /-- no call made yet / the calls after this point are not looked at -/
+  | start (s : F.σ) (stream : List Nat) : DLoopPre F s stream 0 0
+  | final (k : Sink) (s : F.σ) (rem : List Nat) (b : Budget) :
+      (call F k s rem true b).res = .inputEmpty → DLoopPre F s rem 1 0
+  | lastStep (k : Sink) (s : F.σ) (rem : List Nat) (b : Budget) (cap n c : Nat) :
+      (call F k s rem true b).res ≠ .inputEmpty → minCap k ≤ cap →
+      Admissible F k cap (call F k s rem true b) →
+      DLoopPre F (call F k s rem true b).st (rem.drop (call F k s rem true b).read) n c →
+      DLoopPre F s rem (n + 1) c
+  | chunkDone (k : Sink) (s : F.σ) (src rest : List Nat) (b : Budget) (n c : Nat) :
+      (call F k s src false b).res = .inputEmpty →
+      DLoopPre F (call F k s src false b).st (src.drop (call F k s src false b).read ++ rest) n c →
+      DLoopPre F s (src ++ rest) (n + 1) (c + 1)
+  | chunkStep (k : Sink) (s : F.σ) (src rest : List Nat) (b : Budget) (cap n c : Nat) :
+      (call F k s src false b).res ≠ .inputEmpty → minCap k ≤ cap →
+      Admissible F k cap (call F k s src false b) →
+      DLoopPre F (call F k s src false b).st (src.drop (call F k s src false b).read ++ rest) n c →
+      DLoopPre F s (src ++ rest) (n + 1) c
+
+/-- a complete run is one of its prefixes -/
+theorem DLoop.toPre {F : Fam} {s : F.σ} {stream : List Nat} {n c : Nat} (h : DLoop F s stream n c) :
+    DLoopPre F s stream n c := by
   induction h with
+  | final k s rem b hres => exact .final k s rem b hres
+  | lastStep k s rem b cap n c hres hcap hadm _ ih => exact .lastStep k s rem b cap n c hres hcap hadm ih
+  | chunkDone k s src rest b n c hres _ ih => exact .chunkDone k s src rest b n c hres ih
+  | chunkStep k s src rest b cap n c hres hcap hadm _ ih => exact .chunkStep k s src rest b cap n c hres hcap hadm ih
+
+/-- the relation is prefix-closed: whoever has made `n` calls has made `m` calls for every `m ≤ n` -/
+theorem DLoopPre.prefix_closed {F : Fam} {s : F.σ} {stream : List Nat} {n c : Nat} (h : DLoopPre F s stream n c) :
+    ∀ m, m ≤ n → ∃ c', c' ≤ c ∧ DLoopPre F s stream m c' := by
+  induction h with
+  | start s stream => intro m hm; exact ⟨0, Nat.le_refl _, by have : m = 0 := by omega
+                                                              subst this; exact .start s stream⟩
+  | final k s rem b hres =>
+    intro m hm
+    cases m with
+    | zero => exact ⟨0, Nat.le_refl _, .start s rem⟩
+    | succ m => have : m = 0 := by omega
+                subst this; exact ⟨0, Nat.le_refl _, .final k s rem b hres⟩
+  | lastStep k s rem b cap n c hres hcap hadm _ ih =>
+    intro m hm
+    cases m with
+    | zero => exact ⟨0, Nat.zero_le _, .start s rem⟩
+    | succ m =>
+      obtain ⟨c', hc', h'⟩ := ih m (by omega)
+      exact ⟨c', hc', .lastStep k s rem b cap m c' hres hcap hadm h'⟩
+  | chunkDone k s src rest b n c hres _ ih =>
+    intro m hm
+    cases m with
+    | zero => exact ⟨0, Nat.zero_le _, .start s (src ++ rest)⟩
+    | succ m =>
+      obtain ⟨c', hc', h'⟩ := ih m (by omega)
+      exact ⟨c' + 1, by omega, .chunkDone k s src rest b m c' hres h'⟩
+  | chunkStep k s src rest b cap n c hres hcap hadm _ ih =>
+    intro m hm
+    cases m with
+    | zero => exact ⟨0, Nat.zero_le _, .start s (src ++ rest)⟩
+    | succ m =>
+      obtain ⟨c', hc', h'⟩ := ih m (by omega)
+      exact ⟨c', hc', .chunkStep k s src rest b cap m c' hres hcap hadm h'⟩
+
+/-- **at no point of the caller loop — complete or not — has it made more calls than the stream has
+events, plus chunks, plus one** -/
+theorem prefix_calls_le_events (F : Fam) (L : Laws F) (hb : NeedsBounded F) (s : F.σ) (stream : List Nat) (n c : Nat)
+    (h : DLoopPre F s stream n c) : ∀ pos, n ≤ (ref F s stream pos).length + c + 1 := by
+  induction h with
+  | start s stream => intro pos; omega
   | final k s rem b hres => intro pos; omega
   | lastStep k s rem b cap n c hres hcap hadm _ ih =>
     intro pos
@@ -107,6 +187,13 @@ theorem calls_le_events (F : Fam) (L : Laws F) (hb : NeedsBounded F) (s : F.σ) 
     have := ih (pos + (call F k s src false b).read)
     rw [← hs, List.length_append]
     omega
+
+/-- **the caller loop terminates within a number of calls bounded by what the stream says**:
+calls ≤ (characters + errors of the chunk-free reference semantics) + chunks + 1 (a complete run is a
+prefix: `prefix_calls_le_events`) -/
+theorem calls_le_events (F : Fam) (L : Laws F) (hb : NeedsBounded F) (s : F.σ) (stream : List Nat) (n c : Nat)
+    (h : DLoop F s stream n c) : ∀ pos, n ≤ (ref F s stream pos).length + c + 1 :=
+  prefix_calls_le_events F L hb s stream n c h.toPre
 
 /-! ## the reference semantics is linear in the stream -/
 
@@ -322,6 +409,27 @@ theorem caller_loop_bound_weak (v : Gen.Variant) (s : (famOfVariant v).σ) (hi :
   have := caller_loop_bound v s hi stream hb n c h
   omega
 
+/-- **C08, the caller loop cannot go on: all 40 encodings, raw API, prefixes of runs.**  At no point
+of the documented caller loop — whether or not it ever reaches the call that ends the stream — has it
+made more than `bytes + chunks + 6` calls -/
+theorem caller_loop_prefix_bound (v : Gen.Variant) (s : (famOfVariant v).σ) (hi : variantInv v s)
+    (stream : List Nat) (hb : ∀ b ∈ stream, b < 256) (n c : Nat)
+    (h : DLoopPre (famOfVariant v) s stream n c) : n ≤ stream.length + c + 6 := by
+  have h1 := prefix_calls_le_events _ (famOfVariant_laws v) (famOfVariant_needsBounded v) s stream n c h 0
+  have h2 := variant_ref_length_le v s hi stream hb 0
+  omega
+
+/-- **termination**: there is no prefix of a run with more than `bytes + chunks + 6` calls; since every
+prefix of an infinite run would be derivable, the loop makes its last call after at most that many
+(the `c` completely pushed chunks are the caller's: a caller who pushes finitely many chunks is done
+after finitely many calls) -/
+theorem caller_loop_terminates (v : Gen.Variant) (s : (famOfVariant v).σ) (hi : variantInv v s)
+    (stream : List Nat) (hb : ∀ b ∈ stream, b < 256) :
+    ¬ ∃ n c, stream.length + c + 6 < n ∧ DLoopPre (famOfVariant v) s stream n c := by
+  intro ⟨n, c, hlt, h⟩
+  have := caller_loop_prefix_bound v s hi stream hb n c h
+  omega
+
 /-! ## with replacement -/
 
 theorem textOf_true_length (e : List Ev) : (C02.textOf true e).length = e.length := by
@@ -390,9 +498,75 @@ theorem repl_call_events (F : Fam) (k : Sink) (L : Laws F) (last : Bool) (fuel :
   have := congrArg List.length this
   simpa [textOf_true_length] using this
 
-theorem repl_calls_le_events (F : Fam) (L : Laws F) (hb : NeedsBounded F) (s : F.σ) (stream : List Nat) (n c : Nat)
-    (h : DReplLoop F s stream n c) : ∀ pos, n ≤ (ref F s stream pos).length + c + 1 := by
+/-- **every prefix of a run of the caller loop over the with-replacement methods** (`DReplLoop`
+without the requirement that the run is complete: `start` ends a derivation anywhere) -/
+inductive DReplLoopPre (F : Fam) : F.σ → List Nat → Nat → Nat → Prop
+  | start (s : F.σ) (stream : List Nat) : DReplLoopPre F s stream 0 0
+  | final (k : Sink) (s : F.σ) (rem : List Nat) (fuel : Nat) (budgets : List Budget) (t : ReplRes F.σ) :
+      replLoop F k true fuel s rem budgets = some t → t.res = .inputEmpty → DReplLoopPre F s rem 1 0
+  | lastStep (k : Sink) (s : F.σ) (rem : List Nat) (fuel : Nat) (budgets : List Budget) (t : ReplRes F.σ)
+      (cap n c : Nat) :
+      replLoop F k true fuel s rem budgets = some t → t.res ≠ .inputEmpty → minCap k ≤ cap →
+      ReplAdmissible F k true fuel s rem budgets cap →
+      DReplLoopPre F t.st (rem.drop t.read) n c → DReplLoopPre F s rem (n + 1) c
+  | chunkDone (k : Sink) (s : F.σ) (src rest : List Nat) (fuel : Nat) (budgets : List Budget) (t : ReplRes F.σ)
+      (n c : Nat) :
+      replLoop F k false fuel s src budgets = some t → t.res = .inputEmpty →
+      DReplLoopPre F t.st (src.drop t.read ++ rest) n c → DReplLoopPre F s (src ++ rest) (n + 1) (c + 1)
+  | chunkStep (k : Sink) (s : F.σ) (src rest : List Nat) (fuel : Nat) (budgets : List Budget) (t : ReplRes F.σ)
+      (cap n c : Nat) :
+      replLoop F k false fuel s src budgets = some t → t.res ≠ .inputEmpty → minCap k ≤ cap →
+      ReplAdmissible F k false fuel s src budgets cap →
+      DReplLoopPre F t.st (src.drop t.read ++ rest) n c → DReplLoopPre F s (src ++ rest) (n + 1) c
+
+theorem DReplLoop.toPre {F : Fam} {s : F.σ} {stream : List Nat} {n c : Nat} (h : DReplLoop F s stream n c) :
+    DReplLoopPre F s stream n c := by
   induction h with
+  | final k s rem fuel budgets t hrun hres => exact .final k s rem fuel budgets t hrun hres
+  | lastStep k s rem fuel budgets t cap n c hrun hres hcap hadm _ ih =>
+    exact .lastStep k s rem fuel budgets t cap n c hrun hres hcap hadm ih
+  | chunkDone k s src rest fuel budgets t n c hrun hres _ ih =>
+    exact .chunkDone k s src rest fuel budgets t n c hrun hres ih
+  | chunkStep k s src rest fuel budgets t cap n c hrun hres hcap hadm _ ih =>
+    exact .chunkStep k s src rest fuel budgets t cap n c hrun hres hcap hadm ih
+
+theorem DReplLoopPre.prefix_closed {F : Fam} {s : F.σ} {stream : List Nat} {n c : Nat}
+    (h : DReplLoopPre F s stream n c) : ∀ m, m ≤ n → ∃ c', c' ≤ c ∧ DReplLoopPre F s stream m c' := by
+  induction h with
+  | start s stream => intro m hm; exact ⟨0, Nat.le_refl _, by have : m = 0 := by omega
+                                                              subst this; exact .start s stream⟩
+  | final k s rem fuel budgets t hrun hres =>
+    intro m hm
+    cases m with
+    | zero => exact ⟨0, Nat.le_refl _, .start s rem⟩
+    | succ m => have : m = 0 := by omega
+                subst this; exact ⟨0, Nat.le_refl _, .final k s rem fuel budgets t hrun hres⟩
+  | lastStep k s rem fuel budgets t cap n c hrun hres hcap hadm _ ih =>
+    intro m hm
+    cases m with
+    | zero => exact ⟨0, Nat.zero_le _, .start s rem⟩
+    | succ m =>
+      obtain ⟨c', hc', h'⟩ := ih m (by omega)
+      exact ⟨c', hc', .lastStep k s rem fuel budgets t cap m c' hrun hres hcap hadm h'⟩
+  | chunkDone k s src rest fuel budgets t n c hrun hres _ ih =>
+    intro m hm
+    cases m with
+    | zero => exact ⟨0, Nat.zero_le _, .start s (src ++ rest)⟩
+    | succ m =>
+      obtain ⟨c', hc', h'⟩ := ih m (by omega)
+      exact ⟨c' + 1, by omega, .chunkDone k s src rest fuel budgets t m c' hrun hres h'⟩
+  | chunkStep k s src rest fuel budgets t cap n c hrun hres hcap hadm _ ih =>
+    intro m hm
+    cases m with
+    | zero => exact ⟨0, Nat.zero_le _, .start s (src ++ rest)⟩
+    | succ m =>
+      obtain ⟨c', hc', h'⟩ := ih m (by omega)
+      exact ⟨c', hc', .chunkStep k s src rest fuel budgets t cap m c' hrun hres hcap hadm h'⟩
+
+theorem repl_prefix_calls_le_events (F : Fam) (L : Laws F) (hb : NeedsBounded F) (s : F.σ) (stream : List Nat)
+    (n c : Nat) (h : DReplLoopPre F s stream n c) : ∀ pos, n ≤ (ref F s stream pos).length + c + 1 := by
+  induction h with
+  | start s stream => intro pos; omega
   | final k s rem fuel budgets t hrun hres => intro pos; omega
   | lastStep k s rem fuel budgets t cap n c hrun hres hcap hadm _ ih =>
     intro pos
@@ -421,6 +595,10 @@ theorem repl_calls_le_events (F : Fam) (L : Laws F) (hb : NeedsBounded F) (s : F
     have := ih (pos + t.read)
     omega
 
+theorem repl_calls_le_events (F : Fam) (L : Laws F) (hb : NeedsBounded F) (s : F.σ) (stream : List Nat) (n c : Nat)
+    (h : DReplLoop F s stream n c) : ∀ pos, n ≤ (ref F s stream pos).length + c + 1 :=
+  repl_prefix_calls_le_events F L hb s stream n c h.toPre
+
 /-- **C08, linear bound, all 40 encodings, with-replacement API**: the documented caller loop over
 `decode_to_utf{8,16}` with destinations of at least 4 bytes / 2 units makes at most
 `bytes + chunks + 6` calls -/
@@ -435,6 +613,25 @@ theorem repl_caller_loop_bound_init (v : Gen.Variant) (stream : List Nat) (hb : 
     (h : DReplLoop (famOfVariant v) (famOfVariant v).init stream n c) : n ≤ stream.length + c + 6 :=
   repl_caller_loop_bound v _ (variantInv_init v) stream hb n c h
 
+/-- **C08, with-replacement API, prefixes of runs**: at no point of the caller loop over
+`decode_to_utf{8,16}` has it made more than `bytes + chunks + 6` calls.  (Each with-replacement call of
+the prefix is one that returned — that it does return is `Lemmas.OneShotCap.variant_replLoop_terminates`:
+`replLoop … ≠ none` for every stop policy once `fuel > 10 · bytes + 9`.) -/
+theorem repl_caller_loop_prefix_bound (v : Gen.Variant) (s : (famOfVariant v).σ) (hi : variantInv v s)
+    (stream : List Nat) (hb : ∀ b ∈ stream, b < 256) (n c : Nat)
+    (h : DReplLoopPre (famOfVariant v) s stream n c) : n ≤ stream.length + c + 6 := by
+  have h1 := repl_prefix_calls_le_events _ (famOfVariant_laws v) (famOfVariant_needsBounded v) s stream n c h 0
+  have h2 := variant_ref_length_le v s hi stream hb 0
+  omega
+
+/-- **termination**: no prefix of a run has more than `bytes + chunks + 6` calls -/
+theorem repl_caller_loop_terminates (v : Gen.Variant) (s : (famOfVariant v).σ) (hi : variantInv v s)
+    (stream : List Nat) (hb : ∀ b ∈ stream, b < 256) :
+    ¬ ∃ n c, stream.length + c + 6 < n ∧ DReplLoopPre (famOfVariant v) s stream n c := by
+  intro ⟨n, c, hlt, h⟩
+  have := repl_caller_loop_prefix_bound v s hi stream hb n c h
+  omega
+
 /-! Non-vacuity: the loop relation is inhabited — x-user-defined, `A B 80`, four-byte UTF-8
 destination: the first `last` call writes `A B` and stops with an admissible `OutputFull` (2 written,
 3 asked for), the second call ends the stream: two calls, `2 ≤ 3 + 0 + 6`. -/
@@ -445,5 +642,14 @@ example : DLoop userDefinedFam () [0x41, 0x42, 0x80] 2 0 :=
       have hr : (call userDefinedFam .utf8 () [0x41, 0x42, 0x80] true (.full 2)).res = .outputFull := by decide
       rw [hr] at h; cases h⟩
     (DLoop.final (F := userDefinedFam) .utf8 () [0x80] .unlimited (by decide))
+
+/-- and its proper prefix: one call made, the stream not finished -/
+example : DLoopPre userDefinedFam () [0x41, 0x42, 0x80] 1 0 :=
+  DLoopPre.lastStep (F := userDefinedFam) .utf8 () [0x41, 0x42, 0x80] (.full 2) 4 0 0 (by decide) (by decide)
+    ⟨by decide, by intro _; decide, by
+      intro l a h
+      have hr : (call userDefinedFam .utf8 () [0x41, 0x42, 0x80] true (.full 2)).res = .outputFull := by decide
+      rw [hr] at h; cases h⟩
+    (DLoopPre.start _ _)
 
 end EncodingRs.Thm.C08Loop
